@@ -57,7 +57,14 @@ VC18(e) == LET d == Docs[e.di] IN
        ELSE IF TRUE THEN "bad:IsolatingNodeRemovedOrChanged"
        ELSE "ok"
   ELSE \* helpers: lift targets and splits never cross an isolating boundary
-       IF ~DocOKTab[e.di] THEN "skip:pre"
+       IF e.helper = "max_open"
+       THEN (LET f == Docs[e.di]  m == MaxOpen(f, e.openIso) IN
+             IF ~(WF(f) /\ Canon(f)) THEN "skip:pre"
+             ELSE IF e.res.kind # "ok" THEN "bad:HelperRaised"
+             ELSE IF <<e.os, e.oe>> # <<m.os, m.oe>> THEN
+                  (IF ~e.openIso THEN "bad:MaxOpenOpensIsolating" ELSE "bad:MaxOpen")
+             ELSE "ok")
+       ELSE IF ~DocOKTab[e.di] THEN "skip:pre"
        ELSE IF e.res.kind # "ok" THEN "skip:raised"
        ELSE IF e.helper = "lift_target"
        THEN LET iso == IsoAncestors(d, e.rstart, e.rend) IN   \* the block range that would be lifted
